@@ -218,6 +218,71 @@ Proof.
   eapply covered_mono; [| | |exact Hb]; [intros d Hd; apply in_or_app; now right|lia|lia].
 Qed.
 
+(* ---- the diagnostic for reads that cannot be observed ---- *)
+(* a read that cannot be kept current: a non-constant property, read through a pointer, with no notify signal *)
+Definition unobservable_read (E : cenv) (st : tstmt) : bool :=
+  match st with
+  | TAssign _ (RReadProp a p) | TExec (RReadProp a p) =>
+      tdesc_is_pointer (operand_tdesc a) && negb (pi_constant (pr_info p))
+      && match notify_signal E p with NoNotify => true | _ => false end
+  | _ => false
+  end.
+
+Lemma here_unobservable E st line known hd ho hds : here_of E st line known = Ok (hd, ho, hds) ->
+  (In PUnobservable hds <-> unobservable_read E st = true).
+Proof.
+  unfold here_of, unobservable_read.
+  assert (T : forall hd' ho' (x : pdiag) , x <> PUnobservable ->
+    Ok (hd', ho', [x]) = Ok (hd, ho, hds) -> (In PUnobservable hds <-> false = true)).
+  { intros hd' ho' x N H. inversion H; subst. split; [intros [X|[]]; contradiction|discriminate]. }
+  assert (T0 : forall hd' ho', @Ok (list (string * mref) * list (nat * nat * mref) * list pdiag) (hd', ho', []) = Ok (hd, ho, hds) -> (In PUnobservable hds <-> false = true)).
+  { intros hd' ho' H. inversion H; subst. split; [intros []|discriminate]. }
+  assert (T1 : forall hd' ho', Ok (hd', ho', [PUnobservable]) = Ok (hd, ho, hds) -> (In PUnobservable hds <-> true = true)).
+  { intros hd' ho' H. inversion H; subst. split; [reflexivity|intros _; now left]. }
+  destruct st as [l r|r|h l s]; [| |apply T0].
+  all: destruct r; try apply T0.
+  all: destruct (tdesc_is_pointer (operand_tdesc obj) && negb (pi_constant (pr_info p))); cbn [andb]; try apply T0.
+  all: destruct (notify_signal E p); try apply T1; try (apply T; discriminate).
+  all: destruct obj; try discriminate; try apply T0.
+  all: match goal with |- context [nth ?v ?kk None] => destruct (nth v kk None) end; apply T0.
+Qed.
+
+Lemma analyze_stmts_unobservable E : forall stmts line known deps obs ds, analyze_stmts E stmts line known = Ok (deps, obs, ds) ->
+  (In PUnobservable ds <-> exists st, In st stmts /\ unobservable_read E st = true).
+Proof.
+  induction stmts as [|st rest IH]; intros line known deps obs ds H.
+  - cbn in H. inversion H; subst. split; [intros []|intros [st [[] _]]].
+  - rewrite analyze_cons in H. unfold bind in H.
+    destruct (here_of E st line known) as [[[hd ho] hds]| | |] eqn:EH; try discriminate.
+    destruct (analyze_stmts E rest (S line) (known_after known st)) as [[[td to] tds]| | |] eqn:ET; try discriminate.
+    inversion H; subst. cbn [fst snd]. rewrite in_app_iff, (here_unobservable _ _ _ _ _ _ _ EH), (IH _ _ _ _ _ ET). split.
+    + intros [X|[s [X Y]]]; [exists st; split; [now left|exact X]|exists s; split; [now right|exact Y]].
+    + intros [s [[<-|X] Y]]; [left; exact Y|right; exists s; auto].
+Qed.
+
+Lemma analyze_blocks_unobservable E nlocals : forall blocks nobs bl deps n ds,
+  analyze_blocks E nlocals blocks nobs = Ok (bl, deps, n, ds) ->
+  (In PUnobservable ds <-> exists b st, In b blocks /\ In st (b_stmts b) /\ unobservable_read E st = true).
+Proof.
+  induction blocks as [|b rest IH]; intros nobs bl deps n ds H; cbn [analyze_blocks] in H.
+  - inversion H; subst. split; [intros []|intros [b [st [[] _]]]].
+  - unfold bind in H. destruct (analyze_stmts E (b_stmts b) 0 (repeat None nlocals)) as [[[d1 o1] s1]| | |] eqn:EA; try discriminate.
+    destruct (analyze_blocks E nlocals rest (nobs + length o1)) as [[[[bl2 d2] n2] s2]| | |] eqn:ER; try discriminate.
+    inversion H; subst. clear H. rewrite in_app_iff, (analyze_stmts_unobservable _ _ _ _ _ _ _ EA), (IH _ _ _ _ _ ER). split.
+    + intros [[st [X Y]]|[b' [st [X [Y Z]]]]]; [exists b, st; split; [now left|auto]|exists b', st; split; [now right|auto]].
+    + intros [b' [st [[<-|X] [Y Z]]]]; [left; exists st; auto|right; exists b', st; auto].
+Qed.
+
+(* a binding is refused with the 'unobservable property' diagnostic EXACTLY when some block reads, through a pointer, a non-constant
+   property that has no notify signal *)
+Theorem unobservable_diagnosed E c c' ds : analyze_code_property_dependency E c = Ok (c', ds) ->
+  (In PUnobservable ds <-> exists b st, In b (c_blocks c) /\ In st (b_stmts b) /\ unobservable_read E st = true).
+Proof.
+  unfold analyze_code_property_dependency, bind. intros H.
+  destruct (analyze_blocks E (length (c_locals c)) (c_blocks c) (c_nobs c)) as [[[[bl deps] n] s]| | |] eqn:EB; try discriminate.
+  inversion H; subst. exact (analyze_blocks_unobservable _ _ _ _ _ _ _ _ EB).
+Qed.
+
 (* ---- the coverage predicate as an executable checker (for the implementation's own IR dumps) ---- *)
 Definition minfo_eqb (a b : minfo) : bool :=
   String.eqb (mi_name a) (mi_name b) && Nat.eqb (List.length (mi_args a)) (List.length (mi_args b))
